@@ -4,6 +4,7 @@ import (
 	"fmt"
 	"go/types"
 	"math/big"
+	"sort"
 	"strings"
 
 	"golang.org/x/tools/go/ssa"
@@ -383,6 +384,12 @@ func checkColorFuncs(p *Program, r *Report, rule string) {
 			e.Opaque = opaqueSet(ctor, conv)
 			v, err := single(p, e, fn, nil)
 			if err != nil {
+				if why, ok := sameAsComposition(p, fn, ctor, conv, d.conv == "ToLinearRGBA64"); ok {
+					r.Check(true, rule, key, p.FnPos(fn), fmt.Sprintf("= %s(c) → .%s(alpha) with the constructor's alpha passed through unchanged", d.ctor, d.conv), "")
+					continue
+				} else if why != "" {
+					err = fmt.Errorf("%v; %s", err, why)
+				}
 				r.Violate(rule, key, p.FnPos(fn), err.Error())
 				continue
 			}
@@ -405,9 +412,89 @@ func checkColorFuncs(p *Program, r *Report, rule string) {
 					}
 				}
 			}
+			if !good {
+				if _, ok := sameAsComposition(p, fn, ctor, conv, d.conv == "ToLinearRGBA64"); ok {
+					good = true
+				}
+			}
 			r.Check(good, rule, key, p.FnPos(fn), fmt.Sprintf("= %s(c) → .%s(alpha) with the constructor's alpha passed through unchanged", d.ctor, d.conv), why)
 		}
 	}
+}
+
+// sameAsComposition: fn does not call ctor and conv itself, but what it computes
+// is, path by path, what conv(ctor(c)) computes when both are read down to the
+// shared primitives of package linear (RGBFromEncoded/RGBFromLinear and the two
+// RGBA64 conversions, with the transfer functions they are handed): the same
+// conditions select the same results.
+func sameAsComposition(p *Program, fn, ctor, conv *ssa.Function, convOnRGB bool) (string, bool) {
+	prims := opaqueSet(p.Func("linear", "RGBFromEncoded"), p.Func("linear", "RGBFromLinear"),
+		p.Method("linear", "RGB", "ToLinearRGBA64"), p.Method("linear", "RGB", "ToEncodedRGBA64"))
+	e := NewEngine(p)
+	e.Opaque = prims
+	args := symArgs(e, fn)
+	if len(args) != 1 || len(ctor.Params) != 1 {
+		return "", false
+	}
+	describe := func(outs []Outcome) (map[string]string, bool) {
+		m := map[string]string{}
+		for _, o := range outs {
+			if o.Kind != "return" {
+				return nil, false
+			}
+			var cs []string
+			for _, c := range o.St.conds {
+				cs = append(cs, c.Key())
+			}
+			sort.Strings(cs)
+			m[strings.Join(cs, " && ")] = valKey(o.Ret)
+		}
+		return m, true
+	}
+	got, ok := describe(e.Run(fn, args, nil))
+	if !ok {
+		return "", false
+	}
+	want := map[string]string{}
+	for _, o := range e.Run(ctor, args, nil) {
+		tp, _ := o.Ret.(Tuple)
+		if o.Kind != "return" || len(tp) != 2 {
+			return "", false
+		}
+		recv := tp[0]
+		if convOnRGB {
+			a, isAgg := recv.(*Agg)
+			if !isAgg || len(a.Elems) != 1 {
+				return "", false
+			}
+			recv = a.Elems[0]
+		}
+		var sub map[string]string
+		if prims(conv) {
+			// the conversion is itself one of the primitives: its application, as a callee would leave it
+			var cs []string
+			for _, c := range o.St.conds {
+				cs = append(cs, c.Key())
+			}
+			sort.Strings(cs)
+			res := e.appOfType("call:"+shortFn(conv), conv.Signature.Results().At(0).Type(), recv, tp[1])
+			sub = map[string]string{strings.Join(cs, " && "): valKey(res)}
+		} else if sub, ok = describe(e.Run(conv, []Val{recv, tp[1]}, o.St.clone())); !ok {
+			return "", false
+		}
+		for k, v := range sub {
+			want[k] = v
+		}
+	}
+	if len(got) != len(want) || len(got) == 0 {
+		return fmt.Sprintf("read down to the linear primitives it has %d cases, the composition of the constructor and the conversion %d", len(got), len(want)), false
+	}
+	for k, v := range want {
+		if got[k] != v {
+			return fmt.Sprintf("read down to the linear primitives it yields %s where the composition of the constructor and the conversion yields %s", trunc(got[k], 160), trunc(v, 160)), false
+		}
+	}
+	return "", true
 }
 
 // checkAlphaNRGBA (C04.alpha): ColorFromNRGBA alpha = A/255, ToNRGBA A = NormalisedTo8Bit(alpha).
